@@ -346,6 +346,17 @@ var specFuncs = map[string]types.Type{
 }
 
 func (fr *Frame) lookupLocal(name string, st *State) (Val, bool) {
+	// "x__2": the second local variable named x in source order (a name declared in two blocks of one function)
+	if i := strings.LastIndex(name, "__"); i > 0 {
+		if n, err := strconv.Atoi(name[i+2:]); err == nil && n >= 1 {
+			as := fr.locals[name[:i]]
+			if n <= len(as) && st.hasCell(as[n-1]) {
+				et := as[n-1].Type().(*types.Pointer).Elem()
+				return Val{fr.ctx.readCell(st, as[n-1], et, nil), et}, true
+			}
+			return Val{}, false
+		}
+	}
 	as := fr.locals[name]
 	for i := len(as) - 1; i >= 0; i-- {
 		if st.hasCell(as[i]) {
